@@ -264,28 +264,50 @@ class Rig:
                 n += len(s.unknown)
         return n
 
+    async def quiesce_wire(self, max_wait: float = 2.0):
+        """Return at an instant when no bytes are in flight on any connection (so that a clock jump does not
+        trip a client-side socket timeout of a request that merely happened to be on the wire)."""
+        if self.net is None:
+            return
+        waited = 0.0
+        while waited < max_wait:
+            busy = any(ct._q or st._q for pairs in self.net.conns.values() for ct, st in pairs)
+            if not busy:
+                await asyncio.sleep(0)
+                await asyncio.sleep(0)
+                busy = any(ct._q or st._q for pairs in self.net.conns.values() for ct, st in pairs)
+                if not busy:
+                    return
+            await asyncio.sleep(0.00037)
+            waited += 0.00037
+
     # ---- API-only drain audit
     async def drain(self, conn, queue: str, *, ack: bool = True):
         """Consume everything from NORMAL, then DELAYED, then DEAD through the public API.
         Returns list of (category, id, payload, params-summary)."""
         from repid.message import MessageCategory
 
-        idle = {"mem": 0.05, "redis": 1.5, "rabbit": 0.35}[self.kind]
+        idle = {"mem": 0.0517, "redis": 1.5173, "rabbit": 0.3517}[self.kind]
         out = []
-        for cat in (MessageCategory.NORMAL, MessageCategory.DELAYED, MessageCategory.DEAD):
-            cons = conn.message_broker.get_consumer(queue, None, None, cat)
-            await cons.start()
-            try:
-                while True:
-                    try:
-                        key, payload, params = await asyncio.wait_for(cons.consume(), timeout=idle)
-                    except asyncio.TimeoutError:
-                        break
-                    out.append((cat.value, key.id_, payload, psum(params)))
-                    if ack:
-                        await conn.message_broker.ack(key)
-            finally:
-                await cons.finish()
+        for _pass in range(4):
+            n0 = len(out)
+            for cat in (MessageCategory.NORMAL, MessageCategory.DELAYED, MessageCategory.DEAD):
+                cons = conn.message_broker.get_consumer(queue, None, None, cat)
+                await cons.start()
+                try:
+                    while True:
+                        try:
+                            key, payload, params = await asyncio.wait_for(cons.consume(), timeout=idle)
+                        except asyncio.TimeoutError:
+                            break
+                        out.append((cat.value, key.id_, payload, psum(params)))
+                        if ack:
+                            await conn.message_broker.ack(key)
+                finally:
+                    await cons.finish()
+                    await asyncio.sleep(0.15 if self.kind == "rabbit" else 0.001)
+            if len(out) == n0:
+                break
         return out
 
 
